@@ -1,6 +1,7 @@
 import RosuModel.Lemmas.Decode
 import RosuModel.Lemmas.LegacySort
 import RosuModel.Lemmas.HeapSort
+import RosuModel.Lemmas.SortTotal
 
 /-!
 # C06 — decoding always yields a well-formed beatmap (post-processing part)
@@ -208,6 +209,61 @@ example : legacySort objGt objLt [((-7 : Int), 0), (-1, 1), (-1, 2), (0, 3), (0,
 example : heapSort objGt [((3 : Int), 0), (1, 1), (2, 2), (1, 3)] 0 3
     = some [(1, 1), (1, 3), (2, 2), (3, 0)] := by decide
 
+/-! ## totality of the sorting utilities (no panic, no out-of-bounds index, the loops terminate) -/
+
+/-- Every sorter built by `TandemSorter::new_stable` can be applied, any number of times, to any
+slice of the right length: `sort` never panics and never runs out of the model's fuel (the
+sorter after a use is the fully marked one, which is again a valid argument). -/
+theorem tandem_total (keys : List Int) (a : List α) (b : List β) (ha : a.length = keys.length)
+    (hb : b.length = keys.length) :
+    ∃ t1 a' t2 b', (Tandem.newStable keys).sort a = some (t1, a') ∧ t1.sort b = some (t2, b') ∧
+      t2 = t1 ∧ a'.length = a.length ∧ b'.length = b.length := by
+  have hσ := stableIndices_permIdx keys
+  have hlen := stableIndices_length keys
+  obtain ⟨t1, a', t2, b', h1, h2, e, hA, hB⟩ :=
+    tandem_second_use_same_perm _ hσ a b (by omega) (by omega)
+  refine ⟨t1, a', t2, b', h1, h2, e, ?_, ?_⟩
+  · rw [Applied.length hA]; omega
+  · rw [Applied.length hB]; omega
+
+/-- `heap_sort(keys, lo, hi, cmp)` returns for EVERY slice, EVERY comparison function (no order
+property is used) and every range `lo ≤ hi < keys.len()`: the sift-down indices `lo + child - 1`,
+`lo + child`, `lo + i - 1` stay in bounds, `hi - lo` does not underflow, and `down_heap`
+terminates within the fuel the model (and the driver) gives it.  The length is unchanged. -/
+theorem heap_sort_total (gt : α → α → Bool) (l : List α) (lo hi : Nat) (h1 : lo ≤ hi)
+    (h2 : hi < l.length) : ∃ l', heapSort gt l lo hi = some l' ∧ l'.length = l.length :=
+  heapSort_total gt l lo hi h1 h2
+
+/-- `osu_legacy::sort` returns for EVERY input list (any length, sorted or not), every `gt`, and
+every `lt` with `¬ x < x` (IEEE `<`, NaNs included): no index of the two pivot scans leaves the
+slice, `j -= 1` and `right - i` never underflow, every `while`/`loop` terminates within the fuel
+of the model, and the `heap_sort` fallback after `depth` levels returns — for every depth limit
+(`32` in the code; the driver's `LEGACY <depth>` lines call exactly this function). -/
+theorem legacy_sort_total (gt lt : α → α → Bool) (hirr : ∀ x, lt x x = false) (depth : Nat)
+    (l : List α) :
+    (∃ l', legacySortDepth gt lt depth l = some l' ∧ l'.length = l.length) ∧
+    (∃ l', legacySort gt lt l = some l' ∧ l'.length = l.length) :=
+  ⟨legacySortDepth_total hirr depth l, legacySort_total hirr l⟩
+
+/-- …in particular for the comparison functions of the code on hit objects. -/
+theorem legacy_sort_objects_total {τ : Type} (l : List (Int × τ)) :
+    ∃ l', legacySort objGt objLt l = some l' ∧ l'.length = l.length :=
+  legacySort_total (fun x => by simp [objLt, fltLt]) l
+
+/-- Totality on an unsorted input that reaches the heap-sort fallback (depth limit 1). -/
+example : legacySortDepth objGt objLt 1 [((3 : Int), 0), (1, 1), (2, 2), (0, 3), (5, 4), (4, 5)]
+    = some [(0, 3), (1, 1), (2, 2), (3, 0), (4, 5), (5, 4)] := by decide
+
+/-- The irreflexivity hypothesis is needed: with a reflexive "`<`" the first scan runs off the
+slice. -/
+example : legacySort (fun (_ _ : Nat) => false) (fun _ _ => true) [1, 2] = none := by decide
+
+/-- `left < right` is needed for the quicksort part: on a one-element window `right - i`
+underflows.  The code never makes such a call (`len < 2` returns early, both recursive calls and
+the loop are guarded by `left < j` / `i < right` / `left >= right`), which is what `dlqs_total`
+proves by carrying `left < right` through the recursion. -/
+example : dlqs objGt objLt (heapSort objGt) 1 [((1 : Int), 0), (2, 1)] 0 0 = none := by decide
+
 /-- Without the sortedness precondition the routine is *not* a sorting function: the pivot is
 re-read from `keys[mid]` after swaps moved it (the C# original keeps a copy).  No call site passes
 unsorted input. -/
@@ -216,29 +272,32 @@ theorem legacy_sort_needs_sorted_input :
       ¬ (l'.map (fun p => norm p.1)).Pairwise (· ≤ ·) :=
   ⟨[(0, 0), (1, 1), (0, 2), (1, 3), (0, 4), (0, 5), (0, 6), (1, 7)], _, rfl, by decide⟩
 
-/-- Mania maps: objects and sounds keep their lengths, the objects are a permutation of the
-accepted records (sounds are not re-paired by the legacy sort — the property exempts mania), and
-the start times are non-decreasing. -/
+/-- Mania maps: for every sequence of accepted records with one sound each the post-processing
+does not panic (tandem sort and legacy sort both return); objects and sounds keep their lengths,
+the objects are a permutation of the accepted records (sounds are not re-paired by the legacy
+sort — the property exempts mania), and the start times are non-decreasing. -/
 theorem decode_mania_objects {τ υ : Type} [DecidableEq τ]
-    (objs : List (Int × τ)) (sounds : List υ) (h : sounds.length = objs.length)
-    (o'' : List (Int × τ)) (s' : List υ) (hres : sortObjects true objs sounds = some (o'', s')) :
-    o''.Perm objs ∧ s'.length = o''.length ∧
+    (objs : List (Int × τ)) (sounds : List υ) (h : sounds.length = objs.length) :
+    ∃ o'' s', sortObjects true objs sounds = some (o'', s') ∧
+      o''.Perm objs ∧ s'.length = o''.length ∧
       (o''.map (fun p => norm p.1)).Pairwise (· ≤ ·) := by
   obtain ⟨o1, s1, he, hl1, hl2, _, hsn, hperm⟩ := sortObjects_tandem objs sounds h
-  rw [he true] at hres
-  simp only [if_true] at hres
-  split at hres
-  · cases hres
-  · next o2 hleg =>
-    cases hres
-    have hp : o''.Perm o1 := legacySort_perm hleg
-    have hk := legacy_sort_keeps_sorted_keys o1 o'' hsn hleg
-    refine ⟨?_, ?_, ?_⟩
-    · have hz := hperm.map Prod.fst
-      rw [List.map_fst_zip (by omega), List.map_fst_zip (by omega)] at hz
-      exact hp.trans hz
-    · rw [hl2, hp.length_eq]
-    · rw [hk]; exact hsn
+  obtain ⟨o'', hleg, _⟩ := legacy_sort_objects_total o1
+  refine ⟨o'', s1, ?_, ?_, ?_, ?_⟩
+  · rw [he true]
+    simp only [if_true, hleg]
+  · have hp : o''.Perm o1 := legacySort_perm hleg
+    have hz := hperm.map Prod.fst
+    rw [List.map_fst_zip (by omega), List.map_fst_zip (by omega)] at hz
+    exact hp.trans hz
+  · rw [hl2, (legacySort_perm hleg).length_eq]
+  · rw [legacy_sort_keeps_sorted_keys o1 o'' hsn hleg]; exact hsn
+
+example : ∃ o'' s', sortObjects true [((5 : Int), "x"), (3, "y"), (5, "z"), (-1, "w")] [10, 11, 12, 13]
+    = some (o'', s') ∧ o''.length = 4 :=
+  let ⟨o'', s', h, hp, _⟩ := decode_mania_objects
+    [((5 : Int), "x"), (3, "y"), (5, "z"), (-1, "w")] [(10 : Nat), 11, 12, 13] rfl
+  ⟨o'', s', h, hp.length_eq⟩
 
 /-! ## control points -/
 
